@@ -438,3 +438,140 @@ package vm
 //@ ensures[inverse] 0 <= x0(v) && x0(v) < old(x0(v)) && big.isInverse(x0(v), old(x2(v)), old(x0(v)))   // x0' * base == 1 modulo the modulus
 //@ ensures[rest] forall(j, 0, depth(v) - 1, v.estack.elems[j] == old(v.estack.elems[j]))
 //@ ensures[err] v.refs <= MaxStackSize ==> err == nil
+
+// ================= stack manipulation =================
+// Positions are counted from the top: elems[len-1-k] is the k-th element.
+//@ func (*Stack).RemoveAt
+//@ requires s != nil
+//@ requires[nopanic] 0 <= n && n < len(s.elems)
+//@ opt frame off
+//@ modifies s.elems, elems(Element), *s.refs, fields(stackitem.Array, rc), fields(stackitem.Struct, rc), fields(stackitem.Map, rc)
+//@ ensures[removed] result == old(s.elems[len(s.elems)-1-n]) && len(s.elems) == old(len(s.elems)) - 1
+//@ ensures[below] forall(j, 0, len(s.elems) - n, s.elems[j] == old(s.elems[j]))
+//@ ensures[above] forall(j, len(s.elems) - n, len(s.elems), s.elems[j] == old(s.elems[j+1]))
+
+//@ func (*Stack).InsertAt
+//@ requires s != nil
+//@ requires[nopanic] 0 <= n && n <= len(s.elems)
+//@ opt frame off
+//@ modifies s.elems, elems(Element), *s.refs, fields(stackitem.Array, rc), fields(stackitem.Struct, rc), fields(stackitem.Map, rc)
+//@ ensures[len] len(s.elems) == old(len(s.elems)) + 1 && s.elems[len(s.elems)-1-n] == e
+//@ ensures[below] forall(j, 0, len(s.elems) - 1 - n, s.elems[j] == old(s.elems[j]))
+//@ ensures[above] forall(j, len(s.elems) - n, len(s.elems), s.elems[j] == old(s.elems[j-1]))
+
+//@ func (*Stack).Swap
+//@ requires s != nil
+//@ modifies elems(Element)
+//@ opt frame off
+//@ ensures[err] (result != nil) == (n1 < 0 || n2 < 0 || n1 >= len(s.elems) || n2 >= len(s.elems))
+//@ ensures[swapped] result == nil ==> s.elems[len(s.elems)-1-n1] == old(s.elems[len(s.elems)-1-n2]) && s.elems[len(s.elems)-1-n2] == old(s.elems[len(s.elems)-1-n1])
+//@ ensures[others] forall(j, 0, len(s.elems), (result == nil && (j == len(s.elems)-1-n1 || j == len(s.elems)-1-n2)) || s.elems[j] == old(s.elems[j]))
+//@ ensures[same] same(s.elems, old(s.elems))
+
+//@ func (*Stack).Roll
+//@ requires s != nil
+//@ modifies elems(Element)
+//@ opt frame off
+//@ ensures[err] (result != nil) == (n < 0 || n >= len(s.elems))
+//@ ensures[top] result == nil ==> s.elems[len(s.elems)-1] == old(s.elems[len(s.elems)-1-n])
+//@ ensures[shifted] result == nil ==> forall(j, len(s.elems)-1-n, len(s.elems)-1, s.elems[j] == old(s.elems[j+1]))
+//@ ensures[below] forall(j, 0, len(s.elems), (result == nil && j >= len(s.elems)-1-n) || s.elems[j] == old(s.elems[j]))
+//@ ensures[same] same(s.elems, old(s.elems))
+
+//@ cases (*VM).execute
+// DUP, OVER, PICK: a copy of the k-th element is pushed
+//@ case DUP
+//@ opt inline-defers yes
+//@ requires op == opcode.DUP && v.getPrice == nil && wfStack(v.estack)
+//@ panics-if depth(v) < 1
+//@ ensures[value] depth(v) == old(depth(v)) + 1 && item(v, 0) == old(item(v, 0))
+//@ ensures[rest] forall(j, 0, depth(v) - 1, v.estack.elems[j] == old(v.estack.elems[j]))
+//@ ensures[err] v.refs <= MaxStackSize ==> err == nil
+
+//@ case OVER
+//@ opt inline-defers yes
+//@ requires op == opcode.OVER && v.getPrice == nil && wfStack(v.estack)
+//@ panics-if depth(v) < 2
+//@ ensures[value] depth(v) == old(depth(v)) + 1 && item(v, 0) == old(item(v, 1))
+//@ ensures[rest] forall(j, 0, depth(v) - 1, v.estack.elems[j] == old(v.estack.elems[j]))
+//@ ensures[err] v.refs <= MaxStackSize ==> err == nil
+
+//@ case PICK
+//@ opt inline-defers yes
+//@ requires op == opcode.PICK && v.getPrice == nil && wfStack(v.estack)
+//@ panics-if !ints1(v) || !i32(x0(v)) || x0(v) < 0 || depth(v) - 1 < x0(v) + 1
+//@ ensures[nofault] old(ints1(v) && 0 <= x0(v) && x0(v) + 1 <= depth(v) - 1)
+//@ ensures[value] depth(v) == old(depth(v)) && item(v, 0) == old(v.estack.elems[len(v.estack.elems)-2-x0(v)].value)
+//@ ensures[rest] forall(j, 0, depth(v) - 1, v.estack.elems[j] == old(v.estack.elems[j]))
+//@ ensures[err] v.refs <= MaxStackSize ==> err == nil
+
+// DROP, NIP, XDROP: the k-th element is removed
+//@ case DROP
+//@ opt inline-defers yes
+//@ requires op == opcode.DROP && v.getPrice == nil && wfStack(v.estack)
+//@ panics-if depth(v) < 1
+//@ ensures[value] depth(v) == old(depth(v)) - 1
+//@ ensures[rest] forall(j, 0, depth(v), v.estack.elems[j] == old(v.estack.elems[j]))
+//@ ensures[err] v.refs <= MaxStackSize ==> err == nil
+
+//@ case NIP
+//@ opt inline-defers yes
+//@ requires op == opcode.NIP && v.getPrice == nil && wfStack(v.estack)
+//@ panics-if depth(v) < 2
+//@ ensures[value] depth(v) == old(depth(v)) - 1 && item(v, 0) == old(item(v, 0))
+//@ ensures[rest] forall(j, 0, depth(v) - 1, v.estack.elems[j] == old(v.estack.elems[j]))
+//@ ensures[err] v.refs <= MaxStackSize ==> err == nil
+
+//@ case XDROP
+//@ opt inline-defers yes
+//@ requires op == opcode.XDROP && v.getPrice == nil && wfStack(v.estack)
+//@ panics-if !ints1(v) || !i32(x0(v)) || x0(v) < 0 || depth(v) - 1 < x0(v) + 1
+//@ ensures[nofault] old(ints1(v) && 0 <= x0(v) && x0(v) + 1 <= depth(v) - 1)
+//@ ensures[value] depth(v) == old(depth(v)) - 2
+//@ ensures[below] forall(j, 0, depth(v) - old(x0(v)), v.estack.elems[j] == old(v.estack.elems[j]))
+//@ ensures[above] forall(j, depth(v) - old(x0(v)), depth(v), v.estack.elems[j] == old(v.estack.elems[j+1]))
+//@ ensures[err] v.refs <= MaxStackSize ==> err == nil
+
+// SWAP, ROT, ROLL, TUCK: a permutation of the top elements
+//@ case SWAP
+//@ opt inline-defers yes
+//@ requires op == opcode.SWAP && v.getPrice == nil && wfStack(v.estack)
+//@ panics-if depth(v) < 2
+//@ ensures[value] depth(v) == old(depth(v)) && item(v, 0) == old(item(v, 1)) && item(v, 1) == old(item(v, 0))
+//@ ensures[rest] forall(j, 0, depth(v) - 2, v.estack.elems[j] == old(v.estack.elems[j]))
+//@ ensures[err] v.refs <= MaxStackSize ==> err == nil
+
+//@ case ROT
+//@ opt inline-defers yes
+//@ requires op == opcode.ROT && v.getPrice == nil && wfStack(v.estack)
+//@ panics-if depth(v) < 3
+//@ ensures[value] depth(v) == old(depth(v)) && item(v, 0) == old(item(v, 2)) && item(v, 1) == old(item(v, 0)) && item(v, 2) == old(item(v, 1))
+//@ ensures[rest] forall(j, 0, depth(v) - 3, v.estack.elems[j] == old(v.estack.elems[j]))
+//@ ensures[err] v.refs <= MaxStackSize ==> err == nil
+
+//@ case ROLL
+//@ opt inline-defers yes
+//@ requires op == opcode.ROLL && v.getPrice == nil && wfStack(v.estack)
+//@ panics-if !ints1(v) || !i32(x0(v)) || x0(v) < 0 || x0(v) >= depth(v) - 1
+//@ ensures[nofault] old(ints1(v) && 0 <= x0(v) && x0(v) < depth(v) - 1)
+//@ ensures[value] depth(v) == old(depth(v)) - 1 && item(v, 0) == old(v.estack.elems[len(v.estack.elems)-2-x0(v)].value)
+//@ ensures[shifted] forall(j, depth(v) - 1 - old(x0(v)), depth(v) - 1, v.estack.elems[j] == old(v.estack.elems[j+1]))
+//@ ensures[rest] forall(j, 0, depth(v) - 1 - old(x0(v)), v.estack.elems[j] == old(v.estack.elems[j]))
+//@ ensures[err] v.refs <= MaxStackSize ==> err == nil
+
+//@ case TUCK
+//@ opt inline-defers yes
+//@ requires op == opcode.TUCK && v.getPrice == nil && wfStack(v.estack)
+//@ panics-if depth(v) < 2
+//@ ensures[value] depth(v) == old(depth(v)) + 1 && item(v, 0) == old(item(v, 0)) && item(v, 1) == old(item(v, 1)) && item(v, 2) == old(item(v, 0))
+//@ ensures[rest] forall(j, 0, depth(v) - 3, v.estack.elems[j] == old(v.estack.elems[j]))
+//@ ensures[err] v.refs <= MaxStackSize ==> err == nil
+
+// DEPTH
+//@ case DEPTH
+//@ opt inline-defers yes
+//@ requires op == opcode.DEPTH && v.getPrice == nil && wfStack(v.estack)
+//@ panics-if false
+//@ ensures[value] depth(v) == old(depth(v)) + 1 && topInt(v, old(depth(v)))
+//@ ensures[rest] forall(j, 0, depth(v) - 1, v.estack.elems[j] == old(v.estack.elems[j]))
+//@ ensures[err] v.refs <= MaxStackSize ==> err == nil
